@@ -324,4 +324,10 @@ def respond (r : Registry) (serverSupported : List Str) (chunk : Nat) (acceptEnc
 def clientTransport (w : Nat) (h : Hdrs) (wire : Bytes) : Except Err Bytes :=
   if h.isChunked then (match dechunk w wire with | .ok (b, _) => .ok b | .error e => .error e) else .ok wire
 
+/-- the codec assumption: every registered handler decodes what it encoded (zlib / lz4 are trusted to satisfy it) -/
+def CodecsLossless (r : Registry) : Prop := ∀ e ∈ r.handlers, ∀ x, e.2.dec (e.2.enc x) = some x
+
+/-- no coding is registered under the empty name (an empty Content-Encoding header means "not coded") -/
+def NamesNonEmpty (r : Registry) : Prop := ∀ e ∈ r.handlers, e.1 ≠ []
+
 end Sdc.Http
